@@ -29,13 +29,154 @@ def p_candidates():
     return out
 
 
+
+class Untranslatable(Exception):
+    pass
+
+
+def _translate_init():
+    """ProductKernel.__init__ of the current product.py: the integer arithmetic that derives the slices and
+    indices, as a Coq term over Z.  Fail-closed Python-ast walk: statements that bind the inputs must read exactly
+    as expected, every other statement must be `name = <int expr>` or `self._name = <int expr | slice(...)>`."""
+    import ast, os
+    import sasmodels.product as prod
+    tree = ast.parse(open(os.path.join(common.REPO, "sasmodels", "product.py")).read())
+    fn = None
+    for node in tree.body:
+        if isinstance(node, ast.ClassDef) and node.name == "ProductKernel":
+            for it in node.body:
+                if isinstance(it, ast.FunctionDef) and it.name == "__init__":
+                    fn = it
+    if fn is None:
+        raise Untranslatable("ProductKernel.__init__ not found")
+    consts = {}
+    for cname in ("NUM_COMMON_PARS", "NUM_MAGNETIC_PARS", "NUM_MAGFIELD_PARS"):
+        v = getattr(prod, cname, None)
+        if not isinstance(v, int):
+            raise Untranslatable("constant %s" % cname)
+        consts[cname] = v
+    bools = {"volfrac_in_p", "have_beta_mode", "have_er_mode"}
+    inputs = {   # statements that bind the inputs of the arithmetic: must read exactly like this
+        "p_npars": "p_info.parameters.npars", "s_npars": "s_info.parameters.npars",
+        "have_beta_mode": "p_info.have_Fq", "have_er_mode": "p_info.radius_effective_modes is not None",
+        "volfrac_in_p": "self._volfrac_index < p_npars + NUM_COMMON_PARS",
+    }
+    skip_exact = {"self.info = model_info", "self.q = q", "self.p_kernel = p_kernel", "self.s_kernel = s_kernel",
+                  "self.dtype = p_kernel.dtype", "self.results = None", "(p_info, s_info) = self.info.composition[1]",
+                  "p_info, s_info = self.info.composition[1]", "self._volfrac_in_p = volfrac_in_p"}
+    ints = {"p_npars", "s_npars"}
+    lets, outs = [], {}
+
+    def ex(e):
+        if isinstance(e, ast.Constant) and isinstance(e.value, int) and not isinstance(e.value, bool):
+            return "%d" % e.value
+        if isinstance(e, ast.Constant) and e.value is None:
+            return "NONE"
+        if isinstance(e, ast.Name):
+            if e.id in consts:
+                return "%d" % consts[e.id]
+            if e.id in bools:
+                return "(b2z %s)" % e.id
+            if e.id in ints:
+                return e.id
+            raise Untranslatable("name %s" % e.id)
+        if isinstance(e, ast.Attribute) and ast.unparse(e) == "p_info.parameters.nmagnetic":
+            return "nmagnetic"
+        if isinstance(e, ast.BinOp) and isinstance(e.op, (ast.Add, ast.Sub, ast.Mult)):
+            op = {ast.Add: "+", ast.Sub: "-", ast.Mult: "*"}[type(e.op)]
+            return "(%s %s %s)" % (ex(e.left), op, ex(e.right))
+        if isinstance(e, ast.IfExp):
+            t = e.test
+            if isinstance(t, ast.Name) and t.id in bools:
+                c = t.id
+            elif isinstance(t, ast.Name) and t.id in ints:
+                c = "(negb (%s =? 0))" % t.id
+            else:
+                raise Untranslatable("condition %s" % ast.unparse(t))
+            return "(if %s then %s else %s)" % (c, ex(e.body), ex(e.orelse))
+        raise Untranslatable("expression %s" % ast.unparse(e))
+
+    for st in fn.body:
+        if isinstance(st, ast.Expr) and isinstance(st.value, ast.Constant):
+            continue
+        if isinstance(st, ast.AnnAssign):
+            st = ast.Assign(targets=[st.target], value=st.value)
+        if isinstance(st, ast.For):
+            if "VOLFRAC_ID" in ast.unparse(st) and "_volfrac_index" in ast.unparse(st):
+                continue      # the search for the volfraction parameter in the combined table (observed, not translated)
+            raise Untranslatable("loop")
+        if not (isinstance(st, ast.Assign) and len(st.targets) == 1):
+            raise Untranslatable("statement %s" % ast.unparse(st)[:60])
+        txt = ast.unparse(st)
+        if txt in skip_exact:
+            continue
+        tgt = st.targets[0]
+        if isinstance(tgt, ast.Name):
+            if tgt.id in inputs:
+                if ast.unparse(st.value) != inputs[tgt.id]:
+                    raise Untranslatable("input %s is now bound as %s" % (tgt.id, ast.unparse(st.value)))
+                continue
+            lets.append((tgt.id, ex(st.value)))
+            ints.add(tgt.id)
+            continue
+        if isinstance(tgt, ast.Attribute) and isinstance(tgt.value, ast.Name) and tgt.value.id == "self":
+            v = st.value
+            if isinstance(v, ast.Call) and isinstance(v.func, ast.Name) and v.func.id == "slice" and len(v.args) == 2 and not v.keywords:
+                outs[tgt.attr + ".start"] = ex(v.args[0]); outs[tgt.attr + ".stop"] = ex(v.args[1])
+            else:
+                outs[tgt.attr] = ex(v)
+            continue
+        raise Untranslatable("statement %s" % txt[:60])
+    need = ["_p_value_slice.start", "_p_value_slice.stop", "_er_index", "_s_value_slice.start", "_s_value_slice.stop",
+            "_beta_mode_index", "_er_mode_index", "_magentic_slice.start", "_magentic_slice.stop",
+            "_p_detail_slice.start", "_p_detail_slice.stop", "_s_detail_slice.start", "_s_detail_slice.stop", "_s_dist_slice.start"]
+    for n in need:
+        if n not in outs or outs[n] == "NONE":
+            raise Untranslatable("attribute %s not assigned an integer" % n)
+    body = "".join("    let %s := %s in\n" % (n, e) for n, e in lets)
+    return body + "    [ " + ";\n      ".join(outs[n] for n in need) + " ]"
+
+
+def gen():
+    """Regenerate Gen/C07_code.v from the text of product.py (ProductKernel.__init__)."""
+    import os
+    lines = ["(* GENERATED by harness/c07.py from sasmodels/product.py: the index arithmetic of ProductKernel.__init__ over Z.",
+             "   Order: p_value.start, p_value.stop, er_index, s_value.start, s_value.stop, beta_mode_index, er_mode_index,",
+             "   magnetic.start, magnetic.stop, p_detail.start, p_detail.stop, s_detail.start, s_detail.stop, s_dist.start *)",
+             "From Coq Require Import ZArith List Bool.", "Import ListNotations.", "Local Open Scope Z_scope.", "",
+             "Definition b2z (b : bool) : Z := if b then 1 else 0.", ""]
+    note = None
+    try:
+        body = _translate_init()
+    except (Untranslatable, OSError, SyntaxError, AttributeError) as exc:
+        note = "%s: %s" % (type(exc).__name__, exc)
+        body = None
+    lines.append("Definition translated : bool := %s." % ("true" if note is None else "false"))
+    if note:
+        lines.append("(* not translated: %s *)" % note.replace("*)", "* )"))
+    lines.append("")
+    lines.append("Definition code_layout (p_npars s_npars : Z) (volfrac_in_p have_beta_mode have_er_mode : bool) (nmagnetic : Z) : list Z :=")
+    if body is None:
+        lines.append("  @nil Z.")
+    else:
+        lines.append(body + ".")
+    lines.append("")
+    common.write_if_changed(os.path.join(common.THEORIES, "Gen", "C07_code.v"), "\n".join(lines))
+    return note
+
+
 def main(run):
     from sasmodels.core import load_model_info, build_model, load_model
     from sasmodels.direct_model import call_kernel, call_Fq
     from sasmodels.product import make_product_info
     rng = random.Random(run.seed * 379 + 7)
     thorough = run.tier == "thorough"
-    run.prove(["C07/Property.v"])
+    note = []
+    run.prove(["C07/Property.v"], gen=lambda: note.append(gen()))
+    if note and note[0]:
+        run.notes.append("ProductKernel.__init__ not translated (%s): the source-text obligation C07_code_layout is vacuous in this run, the behavioural tie decides" % note[0])
+    else:
+        run.notes.append("the index arithmetic of ProductKernel.__init__ translated from the current product.py (Gen/C07_code.v) and proved equal to the model layout (C07_code_layout)")
     pnames = p_candidates() if thorough else [p for p in QUICK_P]
     cases, metas = [], []
     stats = dict(pairs=0, modes={}, beta=0, volfrac_in_p=0, hollow=0, dims={"1d": 0, "2d": 0}, with_dispersity=0,
